@@ -123,6 +123,11 @@ def get_harness(build, variant="plain", extra_flags=""):
             gen_api.generate(build); srcs = srcs + [os.path.join(build, "api_gen.c")]
         except Exception as e:
             raise BuildError("gen_api failed on the current mpir.h: %s" % e)
+        seen = {}
+        for sfile in [x for x in srcs if os.path.basename(x).startswith('ops_')]:
+            for m in re.finditer(r'(?:BOTH\s*\(|\{)\s*"([@A-Za-z0-9_?]+)"\s*,', open(sfile).read()):
+                if m.group(1) != "@reset" and seen.setdefault(m.group(1), sfile) != sfile:
+                    raise BuildError("op name %s is registered by both %s and %s" % (m.group(1), os.path.basename(seen[m.group(1)]), os.path.basename(sfile)))
         reg_c = os.path.join(build, "h_registry.c")
         with open(reg_c, "w") as f:
             f.write('#include "harness.h"\n')
@@ -209,6 +214,8 @@ def diff_streams(lines, impl, model):
     for i, ln in enumerate(lines):
         a = impl[i] if i < len(impl) else "<no output>"
         b = model[i] if i < len(model) else "<no output>"
+        if a.startswith("?") or b.startswith("?"):      # unknown op / unparsable line / bad arguments on either side
+            bad.append((i, ln, a, b)); continue
         if b == "~ok": continue
         if a != b: bad.append((i, ln, a, b))
     return bad
